@@ -33,6 +33,7 @@ def tick_summary(may_exit=True):
         log(I, 'TICKS').append(len(log(I, 'FIRED')))
         log(I, 'ORDER').append('tick')
         self = I.local('self')
+        log(I, 'QLEN_BEFORE').append(I.fz(I.field(self, '_queue'), 'G_qlen'))
         r0 = I.fz(self, '_running')
         I.st.havoc_field('_running')
         I.st.havoc_field('G_qlen')
@@ -45,8 +46,12 @@ def tick_summary(may_exit=True):
                 I.st.uses_any = True
                 I.st.ghost['EXIT_CODE'] = code
                 I.st.ghost['EXIT_AT_TICK'] = len(log(I, 'TICKS'))
-                I.assume(r0, 'SystemExit comes from stop(code), which has no effect (and raises nothing) unless the manager was running')
-                I.assume(z3.Not(I.fz(self, '_running')), 'SystemExit leaves tick through stop(code), which cleared the flag')
+                log(I, 'EXITS').append(len(log(I, 'TICKS')))
+                # SystemExit(code) leaves tick only through the dispatcher / processTask arms, which call stop(code) first (C08
+                # obligations system_exit_stops_the_manager_with_its_code): afterwards the manager is not running, whether stop()
+                # cleared the flag or found it cleared
+                I.assume(z3.Not(I.fz(self, '_running')), 'SystemExit leaves tick after stop(code): the flag is cleared')
+                I.assume(z3.Not(core.any_is_none(code.t)), 'SystemExit(None) never leaves the dispatcher (exit_code obligations of C08)')
                 raise RaiseSig(VExc('SystemExit', [code], {'code': code}))
             if c == 2:
                 lib.raise_(I, 'RuntimeError', VStr('error in tick'))
@@ -147,15 +152,26 @@ def run_post(I, outcome, ctx):
     started = [e for e in fired if isinstance(e, VCons) and e.tag == 'started']
     I.oblige('started_fired_exactly_once', z3.BoolVal(len(started) == 1 and len(fired) == 1))
     I.oblige('started_before_any_tick', z3.BoolVal(bool(order) and order[0] == 'fire:started'))
+    qb = log(I, 'QLEN_BEFORE')
+    exits = log(I, 'EXITS')
+    fade_start = g.get('FADE_START')
     if kind == 'raise':
         cover(I, 'exit')
         I.oblige('only_SystemExit_propagates', z3.BoolVal(v.cls == 'SystemExit'), detail='escaping %s' % v.cls)
+        if fade_start is not None and exits and exits[-1] > fade_start:
+            # a handler raised SystemExit(code) again while run() was already fading out: that exit code supersedes; nothing
+            # further is demanded of this path (the fade-out is cut short by the program itself)
+            cover(I, 'exit_during_fade_out')
+            return
         if v.cls == 'SystemExit' and 'EXIT_CODE' in g:
             I.oblige('exit_code_propagates_to_the_caller', z3.BoolVal(v.args and v.args[0] is g['EXIT_CODE']))
         I.oblige('final_tick_runs_even_on_exit', z3.BoolVal(order[-1] == 'tick'))
         if 'EXIT_AT_TICK' in g and g['EXIT_AT_TICK'] <= g.get('TICKS_IN_LOOP_MAX', 10 ** 9):
             I.oblige('fade_out_also_on_exit_code', z3.BoolVal(len(ticks) - g['EXIT_AT_TICK'] >= 4),
                      detail='stop(code) queued `stopped` and raised SystemExit out of the loop: the fade-out ticks must still dispatch it')
+            I.oblige('queue_drained_before_the_fade_out_also_on_exit_code', qb[-4] == 0 if len(qb) >= 4 else z3.BoolVal(False),
+                     detail='SystemExit(code) ended the loop: every event queued before or as a consequence of stopping must still be '
+                            'dispatched (the loop condition `running or queue non-empty` no longer guards this path)')
         return
     cover(I, 'return')
     I.oblige('returns_not_running', z3.Not(I.fz(self, '_running')), detail='run() returns only after stop()')
@@ -163,6 +179,8 @@ def run_post(I, outcome, ctx):
     q = I.field(self, '_queue')
     if g.get('LOOP_EXITED'):
         I.oblige('fade_out_ticks', z3.BoolVal(len(ticks) - g['TICKS_AT_EXIT'] >= 4))
+    I.oblige('queue_drained_before_the_fade_out', qb[-4] == 0 if len(qb) >= 4 else z3.BoolVal(False),
+             detail='the loop is left only when the manager is not running and the queue is empty')
     I.oblige('ensures.drained', I.fz(q, 'G_qlen') == 0,
              detail='every event queued before or as a consequence of stopping has been dispatched when run() returns')
 
@@ -216,6 +234,9 @@ def mk_run_spec():
 
     def entry(I):
         I.st.ghost['TICKS_AT_ENTRY'] = len(log(I, 'TICKS'))
+
+    def fade_entry(I):
+        I.st.ghost['FADE_START'] = len(log(I, 'TICKS'))
     # loop 0 = `while self.running or len(self._queue)`; after it the fade-out for-loop over range(3) is concrete
     return FucSpec(
         'C08', FILE, 'Manager.run', run_setup, run_post, fields=R_FIELDS, field_alias=ALIAS, classes=EVENT_CLASSES,
@@ -224,9 +245,13 @@ def mk_run_spec():
                'stderr.write': noop, 'format_exc': lambda I, r, a, k: VStr(core.fresh('tb', z3.StringSort()))},
         getattr_hooks={'running': running_hook, 'name': lambda I, o: VStr(I.st.ghost['THREAD_NAME']) if o.cls == 'Thread' else None},
         loops={0: LoopSpec(inv=[('qlen_nonneg', lambda I: I.fz(I.field(I.local('self'), '_queue'), 'G_qlen') >= 0)],
-                           havoc_fields=['_running', 'G_qlen'], entry_hook=entry)},
+                           havoc_fields=['_running', 'G_qlen'], entry_hook=entry),
+               # `while len(self._queue): self.tick()` of the finally block (drains what SystemExit left queued)
+               1: LoopSpec(inv=[('qlen_nonneg', lambda I: I.fz(I.field(I.local('self'), '_queue'), 'G_qlen') >= 0),
+                                ('not_running', lambda I: z3.Not(I.fz(I.local('self'), '_running')))],
+                           havoc_fields=['_running', 'G_qlen'], entry_hook=fade_entry)},
         env={'SIGINT': VInt(2), 'SIGTERM': VInt(15)},
-        cover=['return', 'exit'], replay=run_replay,
+        cover=['return', 'exit', 'exit_during_fade_out'], replay=run_replay,
         clause='run(): exactly one started before the first tick; the loop is left only when not running and the queue is empty; '
                'then three fade-out ticks and a final tick (also on SystemExit); exit code propagates; on return the manager is '
                'not running, the loop thread is released, and nothing is left queued (ensures.drained)')
